@@ -98,3 +98,15 @@ package keeper
 //@   ensures[C16.reject_charges_nothing_or_envelope] err != nil ==> (bankBal[layer(unbox(goCtx, type(sdk.Context)))] == old(bankBal[layer(unbox(goCtx, type(sdk.Context)))]) || (forall a bytes, d string :: bankBal[layer(unbox(goCtx, type(sdk.Context)))][a][d] == old(bankBal[layer(unbox(goCtx, type(sdk.Context)))][a][d]) - ((a == bech32Bytes(msg.Submitter) && d == evmDenomOf[layer(unbox(goCtx, type(sdk.Context)))]) ? vauthFee() : 0) + ((a == moduleAddr(vauthtypes.ModuleName) && d == evmDenomOf[layer(unbox(goCtx, type(sdk.Context)))]) ? vauthFee() : 0)))
 //@   ensures[C16.reject_before_bank_on_validation] (!vauthMsgValid(msg.Submitter, msg.Account, msg.Signature) || old(kvHas[kvStoreId(layer(unbox(goCtx, type(sdk.Context))), payload(m.Keeper.storeKey))][vauthProofKey(bech32Bytes(msg.Account))])) ==> (err != nil && bankBal[layer(unbox(goCtx, type(sdk.Context)))] == old(bankBal[layer(unbox(goCtx, type(sdk.Context)))]))
 //@   panics[C16.submit_panics] only_if !modExists(vauthtypes.ModuleName) || !modCanBurn(vauthtypes.ModuleName) || !denomValid(evmDenomOf[layer(unbox(goCtx, type(sdk.Context)))]) || strLower(msg.Signature) != msg.Signature || blen(vauthProofEnc(msg.Account, strcat("0x", hexEnc(keccak256(sbytes(vauthtypes.MessageToSign)))), msg.Signature)) > 2147483647
+
+// ---------------------------------------------------------------------------------------------
+// grpc_query.go — the query server only reads: together with Has/Get (modifies nothing) this makes
+// SaveProofExternalOwnedAccount the only function of the package that writes the proof store, and
+// SubmitProofExternalOwnedAccount its only caller.
+// ---------------------------------------------------------------------------------------------
+//@ func (q queryServer) ProofExternalOwnedAccount(goCtx context.Context, req *vauthtypes.QueryProofExternalOwnedAccountRequest) (res *vauthtypes.QueryProofExternalOwnedAccountResponse, err error)
+//@   requires typeof(goCtx) == type(sdk.Context) && storeMounted(payload(q.Keeper.storeKey)) && q.Keeper.cdc != nil
+//@   modifies nothing
+//@   ensures[C16.query_reports_store] (err == nil && bech32Valid(req.Account)) ==> (res != nil && kvHas[kvStoreId(layer(unbox(goCtx, type(sdk.Context))), payload(q.Keeper.storeKey))][vauthProofKey(bech32Bytes(req.Account))] && res.Proof.Signature == vauthProofDecSignature(kvVal[kvStoreId(layer(unbox(goCtx, type(sdk.Context))), payload(q.Keeper.storeKey))][vauthProofKey(bech32Bytes(req.Account))]) && res.Proof.Account == vauthProofDecAccount(kvVal[kvStoreId(layer(unbox(goCtx, type(sdk.Context))), payload(q.Keeper.storeKey))][vauthProofKey(bech32Bytes(req.Account))]))
+//@   ensures[C16.query_absent] (bech32Valid(req.Account) && !kvHas[kvStoreId(layer(unbox(goCtx, type(sdk.Context))), payload(q.Keeper.storeKey))][vauthProofKey(bech32Bytes(req.Account))]) ==> err != nil
+//@   panics any
